@@ -273,14 +273,33 @@ func VerifC06_NoSplit() {
 	old := hAlert06(model.LabelSet{"alertname": "A", "instance": "old"}, now.Add(-time.Hour), 30*time.Minute) // already resolved
 	a1 := hAlert06(model.LabelSet{"alertname": "A", "instance": "1"}, now, time.Hour)
 	a2 := hAlert06(model.LabelSet{"alertname": "A", "instance": "2"}, now, time.Hour)
-	d.routeAlert(d.ctx, old) // the group exists and holds only a resolved alert
+	// either the group exists already and holds only a resolved alert, or there is no
+	// group yet and the resolved alert arrives concurrently with the firing ones (its
+	// short-lived group may be flushed and destroyed while another worker is between
+	// its lookup and its insertion)
+	startEmpty := vfBool("noGroupYet")
 	var first *aggrGroup
-	d.routeGroupsSlice[route.Idx].groups.Range(func(_, el any) bool { first = el.(*aggrGroup); return true })
-	d.runAG(first) // its run loop is what maintenance waits for when it stops the group
+	if !startEmpty {
+		d.routeAlert(d.ctx, old)
+		d.routeGroupsSlice[route.Idx].groups.Range(func(_, el any) bool { first = el.(*aggrGroup); return true })
+		d.runAG(first) // its run loop is what maintenance waits for when it stops the group
+	}
+	flushAll := func() {
+		d.routeGroupsSlice[route.Idx].groups.Range(func(_, el any) bool {
+			el.(*aggrGroup).flush(func(...*alert.Alert) bool { return true }) // delivered: resolved alerts removed, group destroyed if empty
+			return true
+		})
+	}
 	steps := []func(){
 		func() { d.routeAlert(d.ctx, a1) },
-		func() { d.routeAlert(d.ctx, a2) },
-		func() { first.flush(func(...*alert.Alert) bool { return true }) }, // delivered: resolved alert removed, group destroyed if empty
+		func() {
+			if startEmpty {
+				d.routeAlert(d.ctx, old)
+			} else {
+				d.routeAlert(d.ctx, a2)
+			}
+		},
+		flushAll,
 		func() { d.doMaintenance() },
 	}
 	names := []string{"ingest1", "ingest2", "flush", "maintenance"}
@@ -300,15 +319,18 @@ func VerifC06_NoSplit() {
 	})
 	vfAssert("never-two-groups-for-one-key", registered <= 1)
 	vfAssert("counters-equal-registered-groups", int(d.aggrGroupsNum.Load()) == registered && int(d.routeGroupsSlice[route.Idx].groupsLen.Load()) == registered)
-	if first.destroyed() {
+	if first != nil && first.destroyed() {
 		vfReach("group-destroyed")
 	}
-	// no firing alert is lost: both must be in the registered, non-destroyed group
+	// no firing alert is lost: every firing alert is in the registered, non-destroyed group
 	vfAssert("a-group-is-registered", registered == 1)
 	if live != nil {
 		_, e1 := live.alerts.Get(a1.Fingerprint())
-		_, e2 := live.alerts.Get(a2.Fingerprint())
-		vfAssert("no-firing-alert-lost", e1 == nil && e2 == nil)
+		vfAssert("no-firing-alert-lost", e1 == nil)
+		if !startEmpty {
+			_, e2 := live.alerts.Get(a2.Fingerprint())
+			vfAssert("no-firing-alert-lost", e2 == nil)
+		}
 		vfAssert("holding-group-is-not-destroyed", !live.destroyed())
 		if live != first {
 			vfReach("group-recreated")
